@@ -472,6 +472,31 @@ pub mod ring {
 
 /// Entry points into module-private code, each a call and never a copy of logic
 pub mod door {
+    /// What a listener or session holds of a [`crate::shutdown::Shutdown`]: the crate-private
+    /// notification handler and completion guard, as `Tunnel::listen` obtains them
+    pub struct ShutdownParticipant {
+        notification: crate::shutdown::Notification,
+        guard: Option<crate::shutdown::CompletionGuard>,
+    }
+
+    /// Register the way `Tunnel::listen` / `Core::listen` do (the caller holds the lock)
+    pub fn shutdown_register(shutdown: &crate::shutdown::Shutdown) -> ShutdownParticipant {
+        ShutdownParticipant {
+            notification: shutdown.notification_handler(),
+            guard: shutdown.completion_guard(),
+        }
+    }
+
+    impl ShutdownParticipant {
+        pub fn has_guard(&self) -> bool {
+            self.guard.is_some()
+        }
+
+        pub async fn wait(&mut self) -> Result<(), String> {
+            self.notification.wait().await.map_err(|e| e.to_string())
+        }
+    }
+
     /// (client random, SNI, ALPN list) as `TlsListener::listen` extracts them
     pub async fn tls_peek(
         stream: super::os::TcpStream,
